@@ -160,6 +160,9 @@ void harness (void)
   /* C18: capture precedes the policy gate */
   if (first_ev (E_POLICY) >= 0) VF_ASSERT (first_ev (E_CAPTURE) >= 0 && first_ev (E_CAPTURE) < first_ev (E_POLICY) && EV_OK (E_CAPTURE), "monitors capture the message before the policy gate can refuse it");
   if (first_ev (E_SEND) >= 0 || first_ev (E_DRIVER) >= 0 || first_ev (E_ACTIVATE) >= 0) VF_ASSERT (first_ev (E_CAPTURE) >= 0 && EV_OK (E_CAPTURE), "nothing is delivered or handled without having been offered to monitors");
+  /* C18: every message that got as far as a transaction with a stamped sender is offered to monitors, deliverable or not */
+  if (first_ev (E_TXN_NEW) >= 0 && EV_OK (E_TXN_NEW) && first_ev (E_SET_SENDER) >= 0 && EV_OK (E_SET_SENDER))
+    VF_ASSERT (count_ev (E_CAPTURE) >= 1, "monitors are offered every processed message, including undeliverable and refused ones");
   /* errors */
   n_err = count_ev (E_ERROR_REPLY) + count_ev (E_OOM_ERROR);
   VF_ASSERT (n_err <= 2 && count_ev (E_ERROR_REPLY) <= 1 && count_ev (E_OOM_ERROR) <= 1, "at most one error emission (an OOM error only replaces a failed error reply)");
